@@ -48,7 +48,7 @@ ASSUMPTIONS = [
 def plan(tier):
     if tier == "thorough":
         return {"runs": 6000, "chunk": 8, "wall_budget": 3300, "resample": 6, "hang_s": 900}
-    return {"runs": 192, "chunk": 2, "wall_budget": 900, "resample": 4}
+    return {"runs": 256, "chunk": 2, "wall_budget": 900, "resample": 4}
 
 
 # ---------------------------------------------------------------------------
@@ -77,7 +77,7 @@ def gen_wl(rng, force=None):
 def _wl_dict(rng, fasta, w):
     return {
         "kind": "fasta" if fasta else "tpf",
-        "fmt": rng.choice(["fa", "fa", "agp", "agp", "tpf"]) if fasta else rng.choice(["tpf", "agp", "agp"]),
+        "fmt": rng.choice(["fa", "fa", "fa", "agp", "agp", "tpf"]) if fasta else rng.choice(["tpf", "agp", "agp"]),
         "input": w["fasta"] if fasta else w["tpf"],
         "pretext": w["pretext_agp"],
         "prefix": rng.choice(["SUPER_", "SUPER_", "chr"]),
@@ -942,9 +942,40 @@ def execute_case(case, run_seed, tier, tag=""):
         sandbox.remove(root)
 
 
+# the first runs of every batch are workloads of given shapes (still seeded), so that
+# the rarer curation shapes are met in every batch and not only in most of them
+CANNED = [
+    # a short scaffold spliced into a broken one, FASTA written, buffer size varied
+    {"force": ("splice", "lines_of_60", "few_gaps"), "haps": False, "fmt": "fa", "dims": ["buffer", "warm"]},
+    {"force": ("splice", "lines_of_60", "few_gaps"), "haps": False, "fmt": "fa", "dims": ["buffer", "cwd"]},
+    {"force": ("splice", "lines_of_60", "few_gaps"), "haps": False, "fmt": "fasta", "dims": ["buffer", "symlink"]},
+    # three haplotypes, a Primary scaffold whose haplotype tag disagrees with its first contig
+    {"force": ("three_haps", "primary_mismatch"), "haps": True, "fmt": "agp", "dims": ["hash", "history"]},
+    # the same haplotype spelt two ways, many "No overlaps found" warnings, repeated in one process
+    {"force": ("double_spelt", "junk"), "haps": True, "fmt": "agp", "dims": ["hash", "history"]},
+    {"force": ("junk",), "haps": False, "fmt": "tpf", "dims": ["history", "stale"]},
+]
+
+
+def canned_case(rng, tier, spec):
+    case = _gen_case(rng, tier)
+    for _ in range(200):
+        w = genmap.gen_workload(rng, fasta_backed=True, haps=spec["haps"], force=spec["force"])
+        if w is not None:
+            break
+    else:
+        return gen_case(rng, tier)
+    wl = _wl_dict(rng, True, w)
+    wl["fmt"] = spec["fmt"]
+    case["w1"] = wl
+    case["dims"] = sorted(spec["dims"])
+    return case
+
+
 def run_one(run_seed, i, tier):
     rng = random.Random(run_seed)
-    case = gen_case(rng, tier)
+    ncanned = len(CANNED) * (1 if tier == "quick" else 8)
+    case = canned_case(rng, tier, CANNED[i % len(CANNED)]) if i < ncanned else gen_case(rng, tier)
     res = execute_case(case, run_seed, tier)
     if i < 2:
         res["sample"] = {
